@@ -9,10 +9,12 @@ SPEC = {
     "level": "proof",
     "level_text": (
         "Proved on the model (Model/CASFS.lean; its reading of fs.go pinned by C29_facts_ok): findNode is sound on every "
-        "tree and complete on well-formed trees against an inductive description of the tree (C29_findNode_faithful), Stat "
-        "reports the found entry, `..` never escapes, Open gives a fuel-independent answer and terminates whenever the "
-        "symlink chain ends (C29_open_ok_no_loop, C29_open_fuel_independent), absolute targets fail cleanly, ReadDir(n<=0) "
-        "lists exactly the directory. PARTIAL: five clauses of the statement are false on the pinned code, each with a "
+        "tree and complete on well-formed trees against an inductive description of the tree (C29_findNode_faithful); at API "
+        "level, for names fs.ValidPath accepts, Stat succeeds exactly on the tree's entries and reports them "
+        "(C29_stat_faithful: such names pass through filepath.Join/Clean unchanged); `..` never escapes; Open returns exactly "
+        "the entry at the end of the symlink chain for every sufficient fuel (C29_open_follows_chain, "
+        "C29_open_fuel_independent) and terminates whenever the chain ends (C29_open_ok_no_loop); absolute targets fail "
+        "cleanly; ReadDir(n<=0) lists exactly the directory. PARTIAL: five clauses of the statement are false on the pinned code, each with a "
         "kernel-checked witness and a narrow known-finding class: symlink cycles exhaust every fuel (fatal stack overflow in "
         "Go), ReadDir(n>0) has no offset (never io.EOF), Open accepts names fs.ValidPath rejects, Stat does not follow "
         "symlinks while Open does, paths through a symlinked directory are not resolved."
